@@ -780,6 +780,13 @@ func zzDump(w *strings.Builder, path string, v reflect.Value, depth int) {
 func (e *Engine) replayModel(o *Oblig, content map[string]interface{}) (bool, error) {
 	info := o.info
 	fn := info.fn
+	info.run.mu.Lock()
+	locked := true
+	defer func() {
+		if locked {
+			info.run.mu.Unlock()
+		}
+	}()
 	if fn.Pkg != e.pkg {
 		return false, fmt.Errorf("function outside package astits")
 	}
@@ -859,6 +866,9 @@ func (e *Engine) replayModel(o *Oblig, content map[string]interface{}) (bool, er
 	}
 	src.WriteString("\tfmt.Println(\"ZZDONE\")\n}\n")
 	content["test_source"] = src.String()
+	m.close()
+	info.run.mu.Unlock()
+	locked = false
 	// run with overlay
 	dir, err := os.MkdirTemp("/var/tmp", "govc-replay-")
 	if err != nil {
